@@ -144,7 +144,7 @@ def mkPlug (comps : List (Nat × Graph Bumps)) : Plug Pins Bumps :=
 
 /-- `ComponentBump.get_rbuilds_in_bump` as a set: the component builds reachable from `to_rbuild` through parent
 builds without entering `from_rbuilds` -/
-def inBump (g : Graph Bumps) (from_ : List Nat) : Nat → List Nat → Nat → Except Err (List Nat)
+def inBump {β} (g : Graph β) (from_ : List Nat) : Nat → List Nat → Nat → Except Err (List Nat)
   | 0, _, _ => .error .outOfFuel
   | fuel + 1, seen, x =>
     if from_.contains x || seen.contains x then .ok seen
